@@ -189,28 +189,28 @@ Print Assumptions C19_accepts_domain_MinFlowDecompCycles.
 
 (* ---------------------------------------------------------------- kMinPathErrorCycles *)
 Theorem C19_validate_sound_kMinPathErrorCycles : forall i, validate_kMinPathErrorCycles i = RaiseValueError -> in_domain_kMinPathErrorCycles i = false.
-Proof. exact validate_sound_kErrCycles. Qed.
+Proof. exact validate_sound_kMinPathErrorCycles. Qed.
 Print Assumptions C19_validate_sound_kMinPathErrorCycles.
 
 Theorem C19_validate_complete_kMinPathErrorCycles : forall i, in_domain_kMinPathErrorCycles i = false -> deviates_kErrCycles i = false -> validate_kMinPathErrorCycles i = RaiseValueError.
-Proof. exact validate_complete_kErrCycles. Qed.
+Proof. exact validate_complete_kMinPathErrorCycles. Qed.
 Print Assumptions C19_validate_complete_kMinPathErrorCycles.
 
 Theorem C19_accepts_domain_kMinPathErrorCycles : forall i, in_domain_kMinPathErrorCycles i = true -> has_live i = true -> validate_kMinPathErrorCycles i = Accept.
-Proof. exact accepts_domain_kErrCycles. Qed.
+Proof. exact accepts_domain_kMinPathErrorCycles. Qed.
 Print Assumptions C19_accepts_domain_kMinPathErrorCycles.
 
 (* ---------------------------------------------------------------- kLeastAbsErrorsCycles *)
 Theorem C19_validate_sound_kLeastAbsErrorsCycles : forall i, validate_kLeastAbsErrorsCycles i = RaiseValueError -> in_domain_kLeastAbsErrorsCycles i = false.
-Proof. exact validate_sound_kErrCycles. Qed.
+Proof. exact validate_sound_kLeastAbsErrorsCycles. Qed.
 Print Assumptions C19_validate_sound_kLeastAbsErrorsCycles.
 
 Theorem C19_validate_complete_kLeastAbsErrorsCycles : forall i, in_domain_kLeastAbsErrorsCycles i = false -> deviates_kErrCycles i = false -> validate_kLeastAbsErrorsCycles i = RaiseValueError.
-Proof. exact validate_complete_kErrCycles. Qed.
+Proof. exact validate_complete_kLeastAbsErrorsCycles. Qed.
 Print Assumptions C19_validate_complete_kLeastAbsErrorsCycles.
 
 Theorem C19_accepts_domain_kLeastAbsErrorsCycles : forall i, in_domain_kLeastAbsErrorsCycles i = true -> has_live i = true -> validate_kLeastAbsErrorsCycles i = Accept.
-Proof. exact accepts_domain_kErrCycles. Qed.
+Proof. exact accepts_domain_kLeastAbsErrorsCycles. Qed.
 Print Assumptions C19_accepts_domain_kLeastAbsErrorsCycles.
 
 (* ---------------------------------------------------------------- kPathCoverCycles *)
@@ -417,6 +417,15 @@ Example C19_nonvacuous_invalid :
    validate_kLeastAbsErrors (set_covlen (set_cons ex_dag one (1#2)%Q) (Some (1#2)%Q) true) = RaiseValueError /\
    validate_kLeastAbsErrors (set_covlen ex_dag (Some (3#2)%Q) true) = RaiseValueError /\
    in_domain_kLeastAbsErrors (set_covlen ex_dag (Some (3#2)%Q) true) = false) /\
+  (* a graph whose only cycle is a self-loop is not a DAG *)
+  in_domain_kFlowDecomp (set_loop_pct ex_dag true PNone PNone) = false /\ validate_kFlowDecomp (set_loop_pct ex_dag true PNone PNone) = RaiseValueError /\
+  validate_stDAG (set_loop_pct ex_dag true PNone PNone) = RaiseValueError /\
+  (* percentile parameters of the cyclic error models *)
+  validate_kMinPathErrorCycles (set_loop_pct ex_graph false POutOfRange PNone) = RaiseValueError /\
+  validate_kMinPathErrorCycles (set_loop_pct ex_graph false PNone POutOfRange) = RaiseValueError /\
+  validate_kLeastAbsErrorsCycles (set_loop_pct ex_graph false PNone POutOfRange) = RaiseValueError /\
+  validate_kMinPathErrorCycles (set_loop_pct ex_graph false PInRange PInRange) = Accept /\
+  validate_kMinPathErrorCycles (set_elems (set_loop_pct ex_graph false PInRange PNone) [ {| e_w := WMissing; e_ign := false |}; {| e_w := WPos; e_ign := true |} ] true) = RaiseValueError /\
   validate_stDiGraph (set_starts ex_graph false []) = RaiseValueError /\
   validate_MinErrorFlow (set_flags ex_graph false true true [true; false]) = RaiseValueError.
 Proof. vm_compute. repeat split; reflexivity. Qed.
